@@ -567,7 +567,7 @@ class Process(StateMachine, persistence.Savable, metaclass=ProcessStateMachineMe
         exception: Optional[BaseException],
         trace: Optional[TracebackType],
     ) -> None:
-        if self.state != process_states.ProcessState.EXCEPTED:
+        if not self.has_terminated():
             self.fail(exception, trace)
 
     @contextlib.contextmanager
@@ -1089,6 +1089,10 @@ class Process(StateMachine, persistence.Savable, metaclass=ProcessStateMachineMe
     ) -> None:
         # If we are creating, then reraise instead of failing.
         if final_state == process_states.ProcessState.CREATED:
+            raise exception.with_traceback(trace)
+
+        # A terminal state is final: a transition attempted from it is refused, not turned into EXCEPTED.
+        if initial_state is not None and self.get_state_class(initial_state).is_terminal():
             raise exception.with_traceback(trace)
 
         new_state = self._create_state_instance(
